@@ -58,6 +58,9 @@ func verifExtract(kind int, path string) (q verifParts, ok bool) {
 	if kind == verifKHashStateDir {
 		// the only extractor for this kind is GetUploadUUID; the algorithm is
 		// whatever follows "hashstates/".
+		if _, _, err := GetUploadAlgoAndOffset(path); err == nil {
+			return q, false // a hash state with offset: another kind
+		}
 		i := strings.LastIndex(path, "/hashstates/")
 		if i < 0 {
 			return q, false
@@ -74,9 +77,10 @@ func verifExtract(kind int, path string) (q verifParts, ok bool) {
 // classified as another kind, or it is exactly the layout path of the
 // components the extractors return.
 //
-// Not mutated: the two-character shard directory of blob paths (the parsers do
-// not compare it with the digest; it is redundant) and, in the quick tier,
-// the interior of the 64-digit digest.
+// The two-character shard directory of blob paths is treated as a component of
+// its own (the parsers accept any two [0-9a-z] there and do not compare it with
+// the digest). In the quick tier the interior of the 64-digit digest is not
+// mutated.
 func VerifMutatedPathRejectedOrConsistent() {
 	kind := verif.Choice("kind", verifNumKinds)
 	p := verifParts{kind: kind, repo: "ab/c", tag: "v1", hex: verifConcreteHex, uuid: "0b9c1d2e-4f6a-4b78-9c0d-1e2f3a4b5c6d", alg: "sha256", off: "10"}
@@ -91,9 +95,6 @@ func VerifMutatedPathRejectedOrConsistent() {
 	for i := start; i < len(path); i++ {
 		if verifHasDigest(kind) && i >= hexAt+keepHex && i < hexAt+len(p.hex)-keepHex {
 			continue
-		}
-		if kind == verifKBlobData && i >= hexAt-3 && i < hexAt-1 {
-			continue // shard directory
 		}
 		positions = append(positions, i)
 	}
@@ -120,6 +121,13 @@ func VerifMutatedPathRejectedOrConsistent() {
 		verif.Reach("rejected-by-extractor")
 		return
 	}
+	if kind == verifKBlobData {
+		q.shard = mp[hexAt-3 : hexAt-1]
+	}
 	verif.Reach("accepted")
 	verif.Assert("accepted-path-is-the-layout-path-of-its-components", verifBuild(q) == mp)
+	// tag, upload id, algorithm and offset are single path segments
+	for _, c := range []string{q.tag, q.uuid, q.alg, q.off} {
+		verif.Assert("component-is-a-single-segment", !strings.Contains(c, "/"))
+	}
 }
